@@ -34,11 +34,11 @@ type RunResult struct {
 // runSpec describes how to obtain the steps of a run: generated from the
 // seed, or replayed from a list.
 type runSpec struct {
-	Property string
-	Seed     uint64
-	Thorough bool
-	Config   *RunConfig // nil: drawn from the seed by the profile
-	Steps    []*Step    // nil: generated
+	Property  string
+	Seed      uint64
+	Thorough  bool
+	Config    *RunConfig // nil: drawn from the seed by the profile
+	Steps     []*Step    // nil: generated
 	KeepSteps bool
 	TracePer  bool
 	StopAt    *Violation // replay/minimise: stop as soon as this oracle fired
